@@ -114,7 +114,14 @@ func checkC12(w *World, r *Report) {
 				case *ast.ExprStmt:
 					if ce, ok := x.X.(*ast.CallExpr); ok && adders[calleeOf(sp, ce)] {
 						k++
-						r.Fail("R12.1", fmt.Sprintf("%s drops the error of %s", funcDeclName(fd), calleeOf(sp, ce).Name()), ce.Pos(), "a sibling name clash reported by the callee is silently ignored: one of the clashing nodes wins depending on iteration order")
+						// named after the function of the reviewed tree the code belongs to (a helper split off it is new)
+						where := funcDeclName(fd)
+						if fo, isF := sp.TypesInfo.Defs[fd.Name].(*types.Func); isF {
+							if names := w.OwnerNamesOf(fo); len(names) > 1 && !recordedFunc(w, "schema", fo) {
+								where = names[len(names)-1]
+							}
+						}
+						r.Fail("R12.1", fmt.Sprintf("%s drops the error of %s", where, calleeOf(sp, ce).Name()), ce.Pos(), "a sibling name clash reported by the callee is silently ignored: one of the clashing nodes wins depending on iteration order")
 					}
 				case *ast.AssignStmt:
 					if len(x.Rhs) == 1 {
@@ -1135,4 +1142,32 @@ func tailOrOnlyDelegate(f *ssa.Function) *ssa.Function {
 		return nil
 	}
 	return call.Call.StaticCallee()
+}
+
+// recordedFunc: f is a function of the reviewed tree (anchors.json has it under this name).
+func recordedFunc(w *World, pkgKey string, f *types.Func) bool {
+	rec := w.recordedAnchors()
+	if rec == nil {
+		return true
+	}
+	rp, ok := rec[pkgKey]
+	if !ok {
+		return true
+	}
+	recv := ""
+	if sig, isSig := f.Type().(*types.Signature); isSig && sig.Recv() != nil {
+		t := sig.Recv().Type()
+		if pt, isP := t.(*types.Pointer); isP {
+			t = pt.Elem()
+		}
+		if n, isN := t.(*types.Named); isN {
+			recv = n.Obj().Name()
+		}
+	}
+	for _, af := range rp.Funcs {
+		if af.Name == f.Name() && af.Recv == recv {
+			return true
+		}
+	}
+	return false
 }
